@@ -11,7 +11,7 @@ export OMP_NUM_THREADS=2 OPENBLAS_NUM_THREADS=2 MKL_NUM_THREADS=2
 PYTHONPATH=$WT /venv/bin/python $SD/demo.py > $SD/demo_clean.log 2>&1; RC_CLEAN=$?
 git apply $SD/patch.diff || { echo "patch does not apply" > $SD/confirm.txt; exit 2; }
 PYTHONPATH=$WT /venv/bin/python $SD/demo.py > $SD/demo_patched.log 2>&1; RC_PATCH=$?
-PYTHONPATH=$WT /venv/bin/python -m pytest -q -p no:cacheprovider --timeout=900 -x "$@" > $SD/suite_patched.log 2>&1; RC_SUITE=$?
+PYTHONPATH=$WT /venv/bin/python -m pytest -q -p no:cacheprovider --timeout=900 "$@" > $SD/suite_patched.log 2>&1; RC_SUITE=$?
 echo "demo_clean_rc=$RC_CLEAN demo_patched_rc=$RC_PATCH suite_patched_rc=$RC_SUITE" > $SD/confirm.txt
 tail -n 3 $SD/suite_patched.log >> $SD/confirm.txt
 cd /; git -C /repo worktree remove --force $WT
